@@ -204,7 +204,7 @@ type Service struct {
 	workqueue      []*work                // Resource work queue.
 	workbuf        []*work                // Underlying buffer of the workqueue
 	workcond       sync.Cond              // Cond waited on by workers and signaled when work is added to workqueue
-	wg             sync.WaitGroup         // WaitGroup for all workers
+	wg             *sync.WaitGroup        // WaitGroup for the workers of the current Serve call
 	mu             sync.Mutex             // Mutex to protect rwork map
 	logger         logger.Logger          // Logger
 	queueGroup     string                 // Queue group to use with CharQueueSubscribe
@@ -667,9 +667,14 @@ func (s *Service) serve(nc Conn) error {
 	// A callback submitted just before a previous Shutdown may only now reach
 	// the queue, so it is set up under the lock. The condition variable has
 	// no state to reset; it is created together with the service.
+	// Each Serve call has a WaitGroup of its own: a service may be served
+	// again as soon as Shutdown has returned, while the previous Serve call
+	// is still on its way out and has yet to wait for its workers.
+	wg := &sync.WaitGroup{}
 	s.mu.Lock()
 	s.nc = nc
 	s.inCh = inCh
+	s.wg = wg
 	s.workbuf = make([]*work, s.inChannelSize)
 	s.workqueue = s.workbuf[:0]
 	s.rwork = make(map[string]*work, s.inChannelSize)
@@ -677,9 +682,9 @@ func (s *Service) serve(nc Conn) error {
 	s.queryTQ = timerqueue.New(s.queryEventExpire, s.queryDuration)
 
 	// Start workers
-	s.wg.Add(s.workerCount)
+	wg.Add(s.workerCount)
 	for i := 0; i < s.workerCount; i++ {
-		go s.startWorker()
+		go s.startWorker(wg)
 	}
 
 	// Set the default ownership before other goroutines are let in by the
@@ -709,7 +714,7 @@ func (s *Service) serve(nc Conn) error {
 	close(workCh)
 
 	// Wait for all workers to be done
-	s.wg.Wait()
+	wg.Wait()
 	return nil
 }
 
@@ -725,7 +730,10 @@ func (s *Service) Shutdown() error {
 	s.close()
 
 	// Wait for all workers to be done
-	s.wg.Wait()
+	s.mu.Lock()
+	wg := s.wg
+	s.mu.Unlock()
+	wg.Wait()
 	simYield("Shutdown.afterWait", "")
 
 	s.mu.Lock()
